@@ -926,6 +926,11 @@ func Run(c *ev.Ctx) int {
 	}
 	workers := 8
 	var wg sync.WaitGroup
+	wg.Add(1)
+	go func() {
+		defer wg.Done()
+		laneSlow(c, proxyExtraEnv)
+	}()
 	ch := make(chan job)
 	for w := 0; w < workers; w++ {
 		wg.Add(1)
